@@ -92,6 +92,10 @@ class ObjCBackend(ObjCBaseBackend):
     namespace_to_has_routes = {}  # type: typing.Dict[typing.Any, bool]
 
     def generate(self, api):
+        # (fresh tables for each run: the class-level ones would carry what
+        # was compiled earlier in the same process)
+        self.obj_name_to_namespace = {}
+        self.namespace_to_has_routes = {}
         for namespace in api.namespaces.values():
             self.namespace_to_has_routes[namespace] = False
             if namespace.routes:
@@ -599,9 +603,9 @@ class ObjCBackend(ObjCBaseBackend):
             return '`{}`'.format(fmt_func(val))
         elif tag == 'field':
             if '.' in val:
-                cls_name, field = val.split('.')
+                cls_name, field = val.rsplit('.', 1)
                 return ('`{}` in `{}`'.format(
-                    fmt_var(field), self.obj_name_to_namespace[cls_name]))
+                    fmt_var(field), self.obj_name_to_namespace.get(cls_name, cls_name)))
             else:
                 return fmt_var(val)
         elif tag in ('type', 'val', 'link'):
